@@ -58,30 +58,120 @@ theorem reference_rejects_iff (x0 : Operand) (rest : Tail) :
   unfold reference; cases clashFree rest <;> simp
 
 /-- non-vacuity: `-a0 + a1 * !a2 < a3` groups as `((-a0) + (a1 * (!a2))) < a3`;
+    `-a0.f1(…) * a1?` groups as `(-((a0.f1)(…))) * (a1?)`;
     `a0 < a1 + a2 < a3` and `a0 && a1 || a2` are rejected, by the model run on
     the generated table. -/
 example :
     parseExpr (relative_associativity false)
-      (render ⟨[.neg], 0⟩ [(.Add, ⟨[], 1⟩), (.Mul, ⟨[.not], 2⟩), (.Lt, ⟨[], 3⟩)]) =
+      (render ⟨[.neg], 0, []⟩ [(.Add, ⟨[], 1, []⟩), (.Mul, ⟨[.not], 2, []⟩), (.Lt, ⟨[], 3, []⟩)]) =
       .ok (.bin .Lt (.bin .Add (.neg (.leaf 0)) (.bin .Mul (.leaf 1) (.not (.leaf 2)))) (.leaf 3)) [] ∧
     parseExpr (relative_associativity false)
-      (render ⟨[], 0⟩ [(.Lt, ⟨[], 1⟩), (.Add, ⟨[], 2⟩), (.Lt, ⟨[], 3⟩)]) = .chained .Lt .Lt ∧
+      (render ⟨[.neg], 0, [.field 1, .call 0]⟩ [(.Mul, ⟨[], 1, [.try_]⟩)]) =
+      .ok (.bin .Mul (.neg (.post (.call 0) (.post (.field 1) (.leaf 0)))) (.post .try_ (.leaf 1))) [] ∧
     parseExpr (relative_associativity false)
-      (render ⟨[], 0⟩ [(.And, ⟨[], 1⟩), (.Or, ⟨[], 2⟩)]) = .chained .Or .And ∧
-    reference ⟨[], 0⟩ [(.Sub, ⟨[], 1⟩), (.Sub, ⟨[], 2⟩)] =
+      (render ⟨[], 0, []⟩ [(.Lt, ⟨[], 1, []⟩), (.Add, ⟨[], 2, []⟩), (.Lt, ⟨[], 3, []⟩)]) = .chained .Lt .Lt ∧
+    parseExpr (relative_associativity false)
+      (render ⟨[], 0, []⟩ [(.And, ⟨[], 1, []⟩), (.Or, ⟨[], 2, []⟩)]) = .chained .Or .And ∧
+    reference ⟨[], 0, []⟩ [(.Sub, ⟨[], 1, []⟩), (.Sub, ⟨[], 2, []⟩)] =
       some (.bin .Sub (.bin .Sub (.leaf 0) (.leaf 1)) (.leaf 2)) := by decide
+
+/-! ### T2b prefix operators against postfix forms and binary operators
+
+The documented grammar (the EBNF comments of src/parser/expr.rs):
+
+```
+Negation ::= ('!' | '-')* Access
+Access   ::= Atom ('?' | Args | '.' Ident)*      -- the loop of `Parser::access`
+```
+
+so a prefix operator applies to the COMPLETE access expression that follows
+it — atom plus every method call, field access and `?` — and the result is one
+operand of the binary operators: `-2.0f64.pow(2.0)` is `-(2.0f64.pow(2.0))`,
+`-x.abs() * y` is `(-(x.abs())) * y`. The atom is any atom (`atom n`): an
+identifier, a literal of any spelling, a parenthesised expression. -/
+
+/-- the tree of `a<n>` followed by the postfix forms `ps` -/
+abbrev postfixed (n : Nat) (ps : List Post) : Tree := accessTree n ps
+
+/-- T2b-1. A prefix operator binds LOOSER than every postfix form: for EVERY
+    prefix chain `pre`, EVERY atom and EVERY chain `ps` of postfix forms (`?`,
+    argument lists, `.name`, in any order and number), the model of
+    `negation`/`access` (inside `binop_expr`, generated relation) parses
+    `pre atom ps` to `pre` applied to the whole `atom ps`. -/
+theorem prefix_looser_than_postfix (dbg : Bool) (pre : List UnOp) (n : Nat) (ps : List Post) :
+    parseExpr (relative_associativity dbg) (pre.map UnOp.tok ++ (.atom n :: ps.map Tok.post)) =
+      .ok (pre.foldr UnOp.apply (postfixed n ps)) [] := by
+  have h := (pratt_correct dbg ⟨pre, n, ps⟩ []).1 (Operand.tree ⟨pre, n, ps⟩)
+    (by simp [reference, clashFree, refTree_nil])
+  simpa [render, renderTail, Operand.toks, Operand.tree] using h
+
+/-- … and the other grouping is a different tree whenever there is a prefix
+    operator and a postfix form at all: the statement above is not vacuous -/
+theorem prefix_postfix_groupings_differ (u : UnOp) (n : Nat) (p : Post) (ps : List Post) :
+    u.apply (postfixed n (p :: ps)) ≠ accessTreeOn (u.apply (.leaf n)) (p :: ps) := by
+  intro h
+  have h2 := congrArg Tree.isPost h
+  rw [accessTreeOn_isPost] at h2
+  cases u <;> simp [UnOp.apply, Tree.isPost] at h2
+
+/-- T2b-2. A prefix operator binds TIGHTER than every binary operator: for
+    EVERY binary operator `o`, `pre atom ps o y` (with `y` any operand, itself
+    with prefix operators and postfix forms) is `(pre (atom ps)) o y` — on the
+    left of the operator — and `y o pre atom ps` is `y o (pre (atom ps))` on
+    its right (so `a - -b.f()` is `a - (-(b.f()))`). -/
+theorem prefix_tighter_than_binary (dbg : Bool) (pre : List UnOp) (n : Nat) (ps : List Post)
+    (o : BinOp) (y : Operand) :
+    parseExpr (relative_associativity dbg)
+        (pre.map UnOp.tok ++ (.atom n :: ps.map Tok.post) ++ (.op o :: y.toks)) =
+      .ok (.bin o (pre.foldr UnOp.apply (postfixed n ps)) y.tree) [] ∧
+    parseExpr (relative_associativity dbg)
+        (y.toks ++ (.op o :: (pre.map UnOp.tok ++ (.atom n :: ps.map Tok.post)))) =
+      .ok (.bin o y.tree (pre.foldr UnOp.apply (postfixed n ps))) [] := by
+  constructor
+  · have h := (pratt_correct dbg ⟨pre, n, ps⟩ [(o, y)]).1 _ (reference_single _ o y)
+    simpa [render, renderTail, Operand.toks, Operand.tree] using h
+  · have h := (pratt_correct dbg y [(o, ⟨pre, n, ps⟩)]).1 _ (reference_single _ o _)
+    simpa [render, renderTail, Operand.toks, Operand.tree] using h
+
+/-- T2b-3 (tie of the hand-written `negation` / `access` to the source). The
+    skeleton GENERATED from `Parser::negation` and `Parser::access` is the one
+    the model follows: each prefix branch takes its token, calls `negation`
+    ITSELF on what follows — and nothing else, under no condition (the
+    translator fails on a conditional, loop, early exit or macro inside a prefix
+    branch) — and wraps the result in `Not` / `Negate`; without a prefix operator
+    `negation` is `access`; `access` parses one `atom` and then applies, in a
+    loop, `?` (`QuestionMark`), an argument list (`FunctionCall`) and `.name`
+    (`Access`) to the expression built so far. -/
+theorem negation_access_skeleton :
+    prefixTokens = [("Bang", "Not"), ("Hyphen", "Negate")] ∧
+    prefixOperand = ["negation", "negation"] ∧
+    negationElse = "access" ∧
+    accessOperand = "atom" ∧
+    accessForms = [("QuestionMark", "QuestionMark"), ("RoundLeft", "FunctionCall"), ("Period", "Access")] :=
+  ⟨rfl, rfl, rfl, rfl, rfl⟩
+
+example : prefixOperand.length = prefixTokens.length ∧ accessForms.length = 3 := ⟨rfl, rfl⟩
+
+/-- non-vacuity, on the seeded witness: `- lit . pow ( … )` is
+    `Negate (call (field lit pow) …)`, not `call (field (Negate lit) pow) …`;
+    `1.0 + - lit . abs ( )`; `! a . b ?`. -/
+example :
+    parseExpr (relative_associativity false) [.op .Sub, .atom 0, .post (.field 0), .post (.call 0)] =
+      .ok (.neg (.post (.call 0) (.post (.field 0) (.leaf 0)))) [] ∧
+    parseExpr (relative_associativity false)
+        [.atom 1, .op .Add, .op .Sub, .atom 0, .post (.field 0), .post (.call 0)] =
+      .ok (.bin .Add (.leaf 1) (.neg (.post (.call 0) (.post (.field 0) (.leaf 0))))) [] ∧
+    parseExpr (relative_associativity false) [.bang, .atom 0, .post (.field 1), .post .try_] =
+      .ok (.not (.post .try_ (.post (.field 1) (.leaf 0)))) [] := by decide
 
 /-! ## T3 literals -/
 
-/-- T3a (`int_spelling_partial`). `simple_literal` on an integer token: for
-    EVERY digit sequence, EVERY placement of digit-group underscores (any number
-    after any digit) and EVERY suffix of the table, the decoded value is the
-    Horner value of the digits (when it fits `i64`, as the implementation reads
-    literals), with that suffix.
-    Full statement (not proved here): the same through `Lexer::number`, i.e.
-    `decodeNumber xs xc (spellDigits ds ++ suffix) = …` — the split of the
-    source into digits and suffix is tied by the correspondence run only. -/
-theorem int_spelling_partial (d : Fin 10 × Nat) (ds : List (Fin 10 × Nat)) (suffix rest : List Char)
+/-- T3a-token. `simple_literal` on an integer token: for EVERY digit sequence,
+    EVERY placement of digit-group underscores (any number after any digit) and
+    EVERY suffix of the table, the decoded value is the Horner value of the
+    digits (when it fits `i64`, as the implementation reads literals), with that
+    suffix. (`int_spelling` below puts `Lexer::number` in front.) -/
+theorem int_token_value (d : Fin 10 × Nat) (ds : List (Fin 10 × Nat)) (suffix rest : List Char)
     (hs : suffix ∈ Literal.intSuffixes) (hr : horner 0 (d :: ds) < 2 ^ 63) :
     decodeNumTok { isFloat := false, num := spellDigits (d :: ds), suffix := suffix, rest := rest } =
       some (.int (horner 0 (d :: ds)) suffix) := by
@@ -95,8 +185,102 @@ theorem int_spelling_partial (d : Fin 10 × Nat) (ds : List (Fin 10 × Nat)) (su
 
 example : decodeNumTok { isFloat := false, num := "1_000__0_".toList, suffix := "u16".toList, rest := [] } =
     some (.int 10000 "u16".toList) := by
-  have := int_spelling_partial (1, 1) [(0, 0), (0, 0), (0, 2), (0, 1)] "u16".toList [] (by decide) (by decide)
+  have := int_token_value (1, 1) [(0, 0), (0, 0), (0, 2), (0, 1)] "u16".toList [] (by decide) (by decide)
   simpa [spellDigits, horner, digitChar] using this
+
+/-- T3a (`int_spelling`, the full statement). Through `Lexer::number` AND
+    `simple_literal`: for EVERY digit sequence, EVERY placement of digit-group
+    underscores, EVERY suffix of the table and EVERY following text `rest` at
+    which the documented token ends (`IntBoundary`: not an `XID_Continue`
+    character or `_`; after a literal without suffix also not a digit, an
+    exponent letter, or a `.` that starts a fraction — `10.hello`, `10..`,
+    `10._x` keep the integer; after a suffix `.` may follow: `5i32.to_string()`),
+    the model of `Lexer::number` splits the source into exactly the digits, the
+    suffix and `rest`, and `simple_literal` decodes the Horner value with that
+    suffix. `xs` / `xc` are unicode-ident's XID_Start / XID_Continue (parameters;
+    the only fact used is that the suffix letters and digits are XID_Continue). -/
+theorem int_spelling (xs xc : Char → Bool) (d : Fin 10 × Nat) (ds : List (Fin 10 × Nat))
+    (suffix rest : List Char) (hs : suffix ∈ Literal.intSuffixes) (hx : ∀ c ∈ suffix, xc c = true)
+    (hb : IntBoundary xs xc suffix rest) (hr : horner 0 (d :: ds) < 2 ^ 63) :
+    ∃ t, lexNumber xs xc (spellDigits (d :: ds) ++ (suffix ++ rest)) = some t ∧ t.rest = rest ∧
+      decodeNumTok t = some (.int (horner 0 (d :: ds)) suffix) :=
+  ⟨_, lexNumber_int xs xc d ds suffix rest hs hx hb, rfl, int_token_value d ds suffix rest hs hr⟩
+
+/-- … and for a complete literal (nothing after it) -/
+theorem int_spelling_complete (xs xc : Char → Bool) (d : Fin 10 × Nat) (ds : List (Fin 10 × Nat))
+    (suffix : List Char) (hs : suffix ∈ Literal.intSuffixes) (hx : ∀ c ∈ suffix, xc c = true)
+    (hr : horner 0 (d :: ds) < 2 ^ 63) :
+    decodeNumber xs xc (spellDigits (d :: ds) ++ suffix) = some (.int (horner 0 (d :: ds)) suffix) := by
+  have h := lexNumber_int xs xc d ds suffix [] hs hx
+    ⟨trivial, fun _ => ⟨trivial, Or.inl trivial⟩⟩
+  simp only [List.append_nil] at h
+  simp only [decodeNumber, h, List.isEmpty_nil, if_true]
+  exact int_token_value d ds suffix [] hs hr
+
+/-- non-vacuity: `5i32.to_string()` — the token ends before the `.`; `1_0.abs()`
+    and `7..` keep the integer (edge case); `1_000__0_u16` complete -/
+example :
+    lexNumber (fun c => c.isAlpha) (fun c => c.isAlphanum) "5i32.to_string()".toList =
+      some { isFloat := false, num := "5".toList, suffix := "i32".toList, rest := ".to_string()".toList } ∧
+    lexNumber (fun c => c.isAlpha) (fun c => c.isAlphanum) "1_0.abs()".toList =
+      some { isFloat := false, num := "1_0".toList, suffix := [], rest := ".abs()".toList } ∧
+    IntBoundary (fun c => c.isAlpha) (fun c => c.isAlphanum) "i32".toList ('.' :: "to_string()".toList) ∧
+    IntBoundary (fun c => c.isAlpha) (fun c => c.isAlphanum) [] ('.' :: 'a' :: "bs()".toList) ∧
+    decodeNumber (fun c => c.isAlpha) (fun c => c.isAlphanum) "1_000__0_u16".toList = some (.int 10000 "u16".toList) := by
+  refine ⟨by decide, by decide, ⟨?_, fun h => by simp at h⟩, ⟨?_, fun _ => ⟨?_, Or.inr ⟨'a', "bs()".toList, rfl, by decide⟩⟩⟩, by decide⟩
+  · show ((fun c : Char => c.isAlphanum) '.' || '.' == '_') = false; decide
+  · show ((fun c : Char => c.isAlphanum) '.' || '.' == '_') = false; decide
+  · show isRotoDigit '.' = false; decide
+
+/-- the suffix tables of the model are the ones GENERATED from `simple_literal`
+    (integer suffixes, float suffixes, float suffixes on an integer token), and
+    every `_` is stripped from the digits -/
+theorem suffix_tables :
+    Gen.Precedence.intSuffixes.map String.toList = Literal.intSuffixes ∧
+    Gen.Precedence.floatSuffixes.map String.toList = Literal.floatSuffixes ∧
+    Gen.Precedence.intTokenFloatSuffixes = ["f32", "f64"] ∧
+    Gen.Precedence.underscoreStripAll = true := ⟨rfl, rfl, rfl, rfl⟩
+
+example : Gen.Precedence.intSuffixes.length = 9 := rfl
+
+/-- T3a-float (`float_token_split_partial`). Where a float literal ends. For
+    EVERY two digit sequences with EVERY placement of underscores, EVERY float
+    suffix (`f32`, `f64`, none) and EVERY following text at which the documented
+    token ends (`FloatBoundary`: not XID_Continue / `_`; without suffix also not
+    a digit or an exponent letter; a `.` MAY follow), `Lexer::number` splits
+    `D.F suffix rest` into the Float token `D.F`, the suffix and `rest` — so in
+    `2.0f64.pow(2.0)` the literal is `2.0f64` and `.pow(2.0)` is a postfix form
+    of it; and an integer token with a float suffix (`2f64.pow(2.0)`) splits
+    the same way.
+    PARTIAL. Full statement: every float spelling of the documented grammar
+    (also `D.`, `DeX`, `D.FeX`, signs and underscores in the exponent) is ONE
+    token and decodes to the correctly rounded binary64 value of its decimal
+    reading. Missing here: the exponent shapes and `D.`, and the value
+    (`parseDecimal` / `f64Bits` are exercised by the correspondence run against
+    Rust's `f64::from_str` and the JIT only). -/
+theorem float_token_split_partial (xs xc : Char → Bool) (d f : Fin 10 × Nat) (ds fs : List (Fin 10 × Nat))
+    (suffix rest : List Char) (hx : ∀ c ∈ suffix, xc c = true)
+    (hxs : ∀ k : Fin 10, xs (digitChar k.val) = false) :
+    (suffix ∈ Literal.floatSuffixes → FloatBoundary xc suffix rest →
+      lexNumber xs xc (spellDigits (d :: ds) ++ ('.' :: (spellDigits (f :: fs) ++ (suffix ++ rest)))) =
+        some { isFloat := true, num := spellDigits (d :: ds) ++ '.' :: spellDigits (f :: fs),
+               suffix := suffix, rest := rest }) ∧
+    ((suffix = "f32".toList ∨ suffix = "f64".toList) → Stops (fun c => xc c || c == '_') rest →
+      lexNumber xs xc (spellDigits (d :: ds) ++ (suffix ++ rest)) =
+        some { isFloat := false, num := spellDigits (d :: ds), suffix := suffix, rest := rest }) := by
+  refine ⟨fun hs hb => lexNumber_float_point xs xc d f ds fs suffix rest hs hx hxs hb, fun hs hb => ?_⟩
+  refine lexNumber_digits xs xc d ds suffix rest (Or.inr ?_) hx ⟨hb, fun h => ?_⟩
+  · rcases hs with h | h <;> subst h <;> exact ⟨'f', _, rfl, Or.inr (Or.inr rfl)⟩
+  · rcases hs with h' | h' <;> subst h' <;> simp at h
+
+/-- non-vacuity: the seeded witness `2.0f64.pow(2.0)`, `2f64.pow(2.0)`, `2.5.abs()` -/
+example :
+    lexNumber (fun c => c.isAlpha) (fun c => c.isAlphanum) "2.0f64.pow(2.0)".toList =
+      some { isFloat := true, num := "2.0".toList, suffix := "f64".toList, rest := ".pow(2.0)".toList } ∧
+    lexNumber (fun c => c.isAlpha) (fun c => c.isAlphanum) "2f64.pow(2.0)".toList =
+      some { isFloat := false, num := "2".toList, suffix := "f64".toList, rest := ".pow(2.0)".toList } ∧
+    lexNumber (fun c => c.isAlpha) (fun c => c.isAlphanum) "2.5.abs()".toList =
+      some { isFloat := true, num := "2.5".toList, suffix := [], rest := ".abs()".toList } := by decide
 
 /-- T3b. Hexadecimal literals, AS numbers, dotted quads and `ip / len`: the
     decoders on concrete spellings of every shape (upper/lower case digits,
@@ -134,7 +318,26 @@ theorem hex_escape_and_continuation (h l : Char) (a b : Nat) (rest : List Char)
   · rw [unescape.eq_def]; simp [ha, hb, hlt]
   · rw [unescape.eq_def]; simp
 
-/-- concrete spellings incl. `\u{…}` with leading zeros and a continuation -/
+/-- T3c-u. `\\u{H…}`: for EVERY spelling of one to six hex digits (either
+    case, leading zeros) whose value is a Unicode scalar value, wherever the
+    escape stands in a string, `unescape` yields the character with that code
+    point followed by the rest; (surrogates and values above 10FFFF are
+    rejected: witnesses below). The digit-group `_` that rustc's escaper also
+    accepts inside the braces is modelled but not part of this statement. -/
+theorem unicode_escape (c : Char) (cs rest : List Char) (d : Nat) (hd : hexVal c = some d)
+    (hcs : ∀ x ∈ cs, (hexVal x).isSome = true) (hlen : cs.length ≤ 5)
+    (hv : isScalar (hexFold d cs) = true) :
+    unescape ('\\' :: 'u' :: '{' :: c :: (cs ++ '}' :: rest)) =
+      (unescape rest).map (Char.ofNat (hexFold d cs) :: ·) :=
+  unescape_unicode c cs rest d hd hcs hlen hv
+
+example : unescape "\\u{e9}\\u{1F600}\\u{00004a}".toList = some ['é', Char.ofNat 0x1F600, 'J'] ∧
+    unescape "\\u{D800}".toList = none ∧ unescape "\\u{110000}".toList = none ∧
+    unescape "\\u{0000041}".toList = none ∧ unescape "\\u{}".toList = none ∧
+    hexFold 14 ['9'] = 0xe9 := by
+  refine ⟨?_, ?_, ?_, ?_, ?_, by decide⟩ <;>
+    simp [unescape, hexVal, unicodeRest, isScalar, skipWs, simpleEscape]
+
 example : unescape "a\\x41\\u{0000e9}\\\n   \tb\\\\".toList = some "aAéb\\".toList := by
   simp [unescape, hexVal, unicodeRest, isScalar, skipWs, simpleEscape]
 
